@@ -487,6 +487,11 @@ func (a *Analysis) Reachable() map[string]bool {
 		}
 	}
 	visit(a.g.Root)
+	// every declared union is compiled by Build (and can be parsed through ParserForProduction),
+	// whether or not the root refers to it
+	for _, u := range a.g.Unions {
+		visit(u.Name)
+	}
 	return seen
 }
 
